@@ -120,6 +120,18 @@ def _cls(bb, gkw, assign=(0,)):
     return "+".join(parts)
 
 
+def shard(tasks, n):
+    """Split each task's search over n workers by first-level alternatives (own caches: redundant, sound)."""
+    out = []
+    for t in tasks:
+        for k in range(n):
+            t2 = dict(t)
+            t2["shard"] = (k, n)
+            t2["id"] = f"{t['id']}#{k}/{n}"
+            out.append(t2)
+    return out
+
+
 REP_PARAMS = [
     ("sz1-mx2", dict(size=1, max_nodes=2)),
     ("sz2-mxN", dict(size=2, max_nodes=None)),
@@ -539,3 +551,93 @@ def c07(tier):
               f"default schedule with all finish orders; dry-run twin of every {step}rd/nd scenario compared with the real first round")
     return explore_check("C07", tier, tasks, S_RULE + "; C07 evaluates its oracle at every sbatch (all rounds reached) and on the files a dry run leaves",
                          COMMON_ASSUMPTIONS, dict(bounds=bounds, dry_twins=len(twins), dry_twin_errors=errors[:5]))
+
+
+# ------------------------------------------------------------------------------ C09, C14, C16
+CANCEL = dict(name="cancel", argv=["jade", "cancel-jobs", "{out}"], host="login1", guard="submitted")
+
+
+def cancel_tasks(oracles, budget, graphs, followups=True, params=None):
+    tasks = []
+    params = params or [("sz1-mx1", dict(size=1, max_nodes=1)), ("sz1-mxN", dict(size=1, max_nodes=None))]
+    seqs = [()]
+    if followups:
+        cmds = {"t": ["jade", "try-submit-jobs", "{out}"], "s": ["jade", "show-status", "-o", "{out}", "-n"]}
+        seqs = [(), ("t",), ("s",), ("t", "t"), ("t", "s"), ("s", "t"), ("s", "s")]
+    for g in graphs:
+        bb = S.REP[g]
+        for tag, gkw in params:
+            for seq in seqs:
+                actors = [dict(CANCEL)]
+                prev = "cancel"
+                for i, c in enumerate(seq):
+                    nm = f"u{i}{c}"
+                    actors.append(dict(name=nm, argv=cmds[c], host="login2", guard="submitted", after=prev))
+                    prev = nm
+                sc = mk_scen(bb, gkw, actors=actors)
+                tasks.append(dict(id=f"cancel-{g}-{tag}-{''.join(seq) or 'none'}-b{budget[0]}", scen=sc,
+                                  oracles=["Obs"] + oracles, budget=budget, cls="cancel+" + tag))
+    return tasks
+
+
+@check("C09")
+def c09(tier):
+    b = (1, 0) if tier == "quick" else (2, 0)
+    graphs = ["chain3", "fork", "join", "diamond", "indep3"] if tier == "quick" else None
+    tasks = rep_tasks(["C09"], b, graphs=graphs, exit_sets=fail_sets if tier == "thorough" else (lambda n: [None, (1,) + (0,) * (n - 1)]),
+                      cancel_sets=flag_sets, params=REP_PARAMS[:2] if tier == "quick" else REP_PARAMS)
+    if tier == "quick":
+        tasks += cancel_tasks(["C09"], (0, 0), ["chain3", "indep3"], followups=False)
+    else:
+        tasks += shard(cancel_tasks(["C09"], (1, 0), ["chain3", "indep3"], followups=False), 16)
+    tasks += input_grid_tasks(["C09"], ns=(1, 2, 3) if tier == "thorough" else (3,), two_groups=False)
+    bounds = f"REP graphs x exit codes x cancel flags at {b[0]} preemption(s); cancel-jobs actor at every point; input grid at budget 0; invariant evaluated after every transition that touched a status file while the cluster lock is free"
+    return explore_check("C09", tier, tasks, S_RULE, COMMON_ASSUMPTIONS + ["at L0 writers that do not take the cluster lock are observed only between their transitions"], dict(bounds=bounds))
+
+
+@check("C14")
+def c14(tier):
+    b = (1, 0) if tier == "quick" else (2, 0)
+    if tier == "quick":
+        graphs = ["indep3", "chain3", "fork"]
+        tasks = cancel_tasks(["C14"], (0, 0), graphs, params=[("sz1-mx1", dict(size=1, max_nodes=1))])
+        tasks += cancel_tasks(["C14"], (0, 0), graphs + ["join", "twocomp"], followups=False,
+                              params=[("sz1-mxN", dict(size=1, max_nodes=None)), ("sz2-mx2", dict(size=2, max_nodes=2))])
+    else:
+        graphs = ["indep3", "chain3", "fork", "join", "diamond", "twocomp", "indep4"]
+        tasks = shard(cancel_tasks(["C14"], (1, 0), graphs), 4)
+        tasks += shard(cancel_tasks(["C14"], (2, 0), ["indep3", "chain3"], followups=False), 32)
+    bounds = (f"{len(graphs)} REP graphs x max-nodes {{1,unset}} with cancel-jobs starting at any point (free first step) followed by every sequence of length <=2 over "
+              f"{{try-submit-jobs, show-status -n}} and the surviving nodes' rounds; " + ("budget 0 (cancel at every point, default continuation, all job-finish orders and lingering-CANCELLED answers)" if tier == "quick" else "1 preemption for all, 2 for the no-follow-up scenarios on 2 graphs"))
+    return explore_check("C14", tier, tasks, S_RULE, COMMON_ASSUMPTIONS + ["scancel kills the node at once; a cancelled batch may linger in squeue as CANCELLED (zero-cost choice per query)"], dict(bounds=bounds))
+
+
+HOOKS = dict(setup="hook setup --x 1", teardown="hook teardown", node_setup="hook node_setup 'a b'",
+             node_teardown="hook node_teardown")
+
+
+@check("C16")
+def c16(tier):
+    b = (1, 0)
+    tasks = []
+    graphs = ["pair", "chain3", "fork", "diamond"]
+    for combo in itertools.product((0, 1), repeat=4):
+        hooks = {k: (HOOKS[k] if bit else None) for k, bit in zip(HOOKS, combo)}
+        ctag = "".join(map(str, combo))
+        for g in graphs:
+            bb = S.REP[g]
+            n = len(bb)
+            for tag, gkw, mode in (("sz1", dict(size=1, max_nodes=2), "hpc"), ("szn", dict(size=8), "hpc"),
+                                   ("sz2", dict(size=2, max_nodes=None), "hpc"), ("local", dict(nproc=2), "local")):
+                for ec in ([None, (1,) + (0,) * (n - 1)] if tier == "thorough" or g == "chain3" else [None]):
+                    for hx in ([{}, {"hook": 1}] if (combo[1] or combo[3]) and (tier == "thorough" or g == "pair") else [{}]):
+                        kw = dict(mode="local", actors=[]) if mode == "local" else {}
+                        sc = mk_scen(bb, gkw, exit_codes=ec, hooks=hooks, **kw)
+                        if hx:
+                            # teardown / node teardown failing is tolerated; setup and node setup must succeed
+                            sc["hook_exit_by_kind"] = {"teardown": 1, "node_teardown": 1}
+                        bud = b if (tier == "thorough" or (g in ("pair", "fork") and tag == "sz1")) and mode == "hpc" else (0, 0)
+                        tasks.append(dict(id=f"hooks{ctag}-{g}-{tag}-e{ec}-x{len(hx)}", scen=sc,
+                                          oracles=["Obs", "C16"], budget=bud, cls=f"hooks{ctag}+{mode}"))
+    bounds = "all 16 set/unset combinations of the four lifecycle commands x 4 REP graphs x {1 batch per job, one batch, 2 per batch, local}; failing teardown hooks; budget 1 on the multi-batch scenarios"
+    return explore_check("C16", tier, tasks, S_RULE, COMMON_ASSUMPTIONS, dict(bounds=bounds))
